@@ -408,6 +408,13 @@ static int dispatch(TcpAsyncCtx *tcpCtx) {
 
 		if (req->state != KSI_ASYNC_STATE_WAITING_FOR_DISPATCH) {
 			/* The state could have been changed in application layer. Just remove the request from the request queue. */
+			if (req->sentCount > 0) {
+				/* A part of the request is on the wire already: nothing else may follow it on this connection. */
+				closeSocket(tcpCtx, __LINE__);
+				KSI_AsyncHandleList_remove(tcpCtx->reqQueue, 0, NULL);
+				res = KSI_ASYNC_CONNECTION_CLOSED;
+				goto cleanup;
+			}
 			KSI_AsyncHandleList_remove(tcpCtx->reqQueue, 0, NULL);
 			continue;
 		}
@@ -418,6 +425,13 @@ static int dispatch(TcpAsyncCtx *tcpCtx) {
 			/* Set error. */
 			req->state = KSI_ASYNC_STATE_ERROR;
 			req->err = KSI_NETWORK_SEND_TIMEOUT;
+			if (req->sentCount > 0) {
+				/* A part of the request is on the wire already: nothing else may follow it on this connection. */
+				closeSocket(tcpCtx, __LINE__);
+				KSI_AsyncHandleList_remove(tcpCtx->reqQueue, 0, NULL);
+				res = KSI_ASYNC_CONNECTION_CLOSED;
+				goto cleanup;
+			}
 			/* Just remove the request from the request queue. */
 			KSI_AsyncHandleList_remove(tcpCtx->reqQueue, 0, NULL);
 			continue;
